@@ -170,10 +170,15 @@ structure DSt (iv : Nat) where
   istate : List (String × String) := []
   /-- handles that were dropped at least once in this case (for the finding signature) -/
   dropped : List String := []
+  /-- concurrent runs: per handle the acknowledged commands (actor, result) -/
+  acked : List (String × String × ORet) := []
+  /-- a lock log was seen: this case is a concurrent run (actors are unique per command) -/
+  conc : Bool := false
   synced : Bool := true
 
 structure St where
   iv : Nat := 1
+  prop : String := ""
   d : DSt iv := {}
 
 def DSt.ent {iv} (d : DSt iv) (h : String) : Ent (Reg.regAgg iv) := (sget d.ents h).getD {}
@@ -371,6 +376,12 @@ def parseLockLog (s : String) : Option (List (Nat × Sys.LockEv)) :=
 
 def oracle {iv} (d : DSt iv) (op ows : List String) : List String :=
   let ret := parseRet (obsRet ows)
+  let isCall := match op.head? with
+    | some k => k == "cmd" || k == "get" || k == "snap" || k == "wcmd" || k == "wget" || k == "wsnap"
+    | none => false
+  -- concurrent runs print the calls without the stored view; they are judged by `conclog`
+  -- (well-bracketed) and by the final `check` (`audit_exact`)
+  if isCall && (kv? ows "keys").isNone then [] else
   match op with
   | ["add", _, h, actor, name] =>
     let pre := d.iview h
@@ -421,6 +432,8 @@ def oracle {iv} (d : DSt iv) (op ows : List String) : List String :=
       if rets.any (·.isNone) then ["unparsable-observation"] else
       let rs := rets.filterMap id
       named "replay_eq_live" (allAgree rs) ++
+      named "audit_exact" (!d.conc || auditExact post ["veto", "unknown", "kv", "duplicate", "fatal", "panic"]
+        ((d.acked.filter (·.1 == h)).map (·.2))) ++
       named "read_is_prefix_state" (match rs.head? with
         | some (.ok v st) => readIsCurrent post v && (sget d.istate h).all (· == st)
         | _ => true) ++
@@ -463,9 +476,14 @@ def learn {iv} (d : DSt iv) (op ows : List String) : DSt iv :=
     | ["wcheck", h] => some (h, true)
     | _ => none
   match h? with
-  | none => d
+  | none => if op.head? == some "conclog" then { d with conc := true } else d
   | some (h, wal) =>
-    let d := match parseView ows wal with
+    -- remember what was acknowledged (judged by `audit_exact` in concurrent runs)
+    let d := match op, parseRet (obsRet ows) with
+      | "cmd" :: _ :: _ :: actor :: _, some r => { d with acked := (h, actor, r) :: d.acked }
+      | _, _ => d
+    let d := if (kv? ows "keys").isNone then d
+      else match parseView ows wal with
       | some v => { d with iviews := sset d.iviews h v }
       | none => d
     let d := if op.head? == some "drop" then
@@ -481,23 +499,36 @@ def learn {iv} (d : DSt iv) (op ows : List String) : DSt iv :=
 
 def fmtFail (kind msg : String) : String := s!"FAIL {kind} {msg}"
 
-def stepD {iv} (d : DSt iv) (line : String) : DSt iv × String :=
+/-- Which property a predicate of the oracle belongs to (both checks run this stream). -/
+def c06Preds : List String :=
+  ["replay_eq_live", "wal_replay_eq_live", "snapshot_is_current_state", "wal_snapshot_truncates",
+   "wal_keys_contiguous", "wal_append_or_no_trace", "add_stores_init"]
+
+def ownedBy (prop name : String) : Bool :=
+  if prop == "C06" then c06Preds.contains name || name == "unparsable-observation"
+  else if prop == "C07" then !(c06Preds.contains name)
+  else true
+
+def stepD {iv} (prop : String) (d : DSt iv) (line : String) : DSt iv × String :=
   let (opS, obsS) := splitObs line
   let op := words opS
   let ows := words obsS
-  let orc := oracle d op ows
+  let orc := (oracle d op ows).filter (ownedBy prop)
   let dO := learn d op ows
   -- an extra tag so that the finding signature can tell a history query after a drop
   let orcTxt := " ".intercalate orc ++
     (match op with
-     | "hist" :: _ :: h :: _ => if d.dropped.contains h && !orc.isEmpty then " after-drop" else ""
+     | "hist" :: i :: h :: _ =>
+       if d.dropped.contains h && !orc.isEmpty then
+         (if i != "1" then " after-drop-history-cache" else " after-drop-uncached") else ""
      | _ => "")
   let opM := if op.head? == some "drop" then op ++ [obsRet ows] else op
   match modelStep d opM with
   | none => (dO, "bad-op " ++ opS)
   | some m =>
     -- carry the oracle bookkeeping over to the model's new state
-    let dM := { m.d with iviews := dO.iviews, istate := dO.istate, dropped := dO.dropped }
+    let dM := { m.d with iviews := dO.iviews, istate := dO.istate, dropped := dO.dropped,
+                          acked := dO.acked, conc := dO.conc }
     if !d.synced then
       if orc.isEmpty then ({ dM with synced := false }, "skip unsynced")
       else ({ dM with synced := false }, fmtFail "oracle" orcTxt)
@@ -512,9 +543,8 @@ def stepD {iv} (d : DSt iv) (line : String) : DSt iv × String :=
         else obsRet ows
       let viewOk := match m.view with
         | none => true
-        | some v => parseView ows (op.head?.any (·.startsWith "w")) == some v
-      let retOk := obsRetTxt == m.ret || (op.head? == some "fault" && obsRetTxt == "ignored")
-      let dM := if op.head? == some "fault" && obsRetTxt == "ignored" then { dM with fault := false } else dM
+        | some v => (kv? ows "keys").isNone || parseView ows (op.head?.any (·.startsWith "w")) == some v
+      let retOk := obsRetTxt == m.ret || op.head? == some "conclog"
       if retOk && viewOk then
         if orc.isEmpty then (dM, s!"ok {op.headD ""}:{m.branch}")
         else (dM, fmtFail "oracle" orcTxt)
@@ -528,13 +558,14 @@ def step (st : St) (line : String) : St × String :=
   match op with
   | ["config", ivS, _] =>
     let iv := natOr ((ivS.drop 3).toString) 1
-    (⟨iv, {}⟩, "ok config:" ++ ivS)
+    (⟨iv, st.prop, {}⟩, "ok config:" ++ ivS)
   | _ =>
-    let r := stepD st.d line
-    (⟨st.iv, r.1⟩, r.2)
+    let r := stepD st.prop st.d line
+    (⟨st.iv, st.prop, r.1⟩, r.2)
 
-def main : IO Unit := do
+/-- `prop` = "C06" / "C07" restricts the oracle to that property's predicates ("" = all). -/
+def main (prop : String := "") : IO Unit := do
   let stdin ← IO.getStdin
-  loop stdin ({} : St) step {}
+  loop stdin ({ prop := prop } : St) step { prop := prop }
 
 end KM.Drv.AggStore
